@@ -166,6 +166,22 @@ func runPath(be kvh.Backend, rd *kvh.RedisBackend, path []kvh.Op, keys []string,
 			}
 		}
 		res.Key = fmt.Sprintf("%s#c%d#untouched-expired%v", m.CanonKeyAt(d, keys, now()), clocks, pk)
+		if rd == nil {
+			// in-memory: the complete implementation state (life-times bucketed like in the model key)
+			res.Key += " | " + d.ImplDumpAt(func(t time.Time) string {
+				switch rem := t.Sub(now()); {
+				case rem <= 0:
+					return "expired"
+				case rem <= time.Millisecond:
+					return "sub-ms"
+				case rem <= 5*time.Second:
+					return "short"
+				case rem > 100*365*24*time.Hour:
+					return "far"
+				}
+				return "long"
+			})
+		}
 		if clocks >= maxClock {
 			res.Key += "!"
 		}
